@@ -180,6 +180,19 @@ func numPieces(peer *Peer) int {
 	return int((peer.Pieces.Length() + ps - 1) / ps)
 }
 
+// maxPieces bounds the piece indices that we accept from a peer while the
+// metadata, and hence the actual number of pieces, is still unknown.  The
+// metadata is at most 128MiB and contains a 20-byte hash for each piece.
+const maxPieces = 128 * 1024 * 1024 / 20
+
+// pieceLimit returns a strict upper bound on valid piece indices.
+func pieceLimit(peer *Peer) uint32 {
+	if peer.Info != nil {
+		return uint32(numPieces(peer))
+	}
+	return maxPieces
+}
+
 func Run(peer *Peer, torEvent chan<- TorEvent, torDone <-chan struct{},
 	info []byte, bitmap bitmap.Bitmap, init []byte) error {
 	peer.torEvent = torEvent
@@ -826,7 +839,7 @@ func handleMessage(peer *Peer, m protocol.Message) error {
 		unchoke(peer, false)
 		writeEvent(peer, TorPeerInterested{peer, false})
 	case protocol.Have:
-		if peer.Info != nil && m.Index >= uint32(numPieces(peer)) {
+		if m.Index >= pieceLimit(peer) {
 			return ErrRange
 		}
 		if !peer.bitmap.Get(int(m.Index)) {
@@ -1112,7 +1125,7 @@ func handleMessage(peer *Peer, m protocol.Message) error {
 				"with incomplete metadata")
 		}
 		peer.isSeed = false
-		if peer.Info != nil && m.Index >= uint32(numPieces(peer)) {
+		if m.Index >= pieceLimit(peer) {
 			return ErrRange
 		}
 		if peer.bitmap.Get(int(m.Index)) {
